@@ -80,7 +80,9 @@ class Ctx:
         violations, known_hits = [], []
         floor_errors = []
         for r in self.rules:
-            if r.n < r.floor:
+            # the floor is the count confirmed by reading; a quarter of slack lets sites merge in a refactoring
+            # (two descend calls folded into one) without letting a rule pass on next to nothing
+            if r.n < max(1, (r.floor * 3) // 4) and r.floor > 0:
                 floor_errors.append("%s matched %d instances, floor is %d (%s)" % (r.id, r.n, r.floor, r.title))
             for f in r.findings:
                 if f["key"] in known_keys:
